@@ -813,7 +813,7 @@ def run(chk):
     # applicability of the built-in rules is computed in Lean (residue classes); of custom character classes too; any other
     # regex enters as findall counts. All three against re.findall on every span of random peptides.
     app_cases = []
-    for _ in range(150 if tier == 'quick' else 2500):
+    for _ in range(150 if tier == 'quick' else 1200):
         sq = ''.join(rng.choice(annot.RESIDUES20 if rng.random() < 0.7 else 'STEDRKNQ') for _ in range(rng.randint(0, 12)))
         for i in range(len(sq) + 1):
             for j in range(i, len(sq) + 1):
@@ -861,7 +861,7 @@ def run(chk):
     cases = []
     for dump, req in corpus_cases():
         cases.append(('fragment', dump, req, None))
-    n_rand = 400 if tier == 'quick' else 4000
+    n_rand = 400 if tier == 'quick' else 3500
     for _ in range(n_rand):
         a = gen_peptide(rng)
         req = gen_request(rng, tier, a.sequence)
